@@ -119,6 +119,32 @@ func checkListGuard(c *Ctx, rule string, list *ssa.Function) {
 			}
 		})
 	}
+	// who may write the counter: Decoder.List and its deferred decrement only —
+	// a reset anywhere else (e.g. at the end of a line, which a literal header
+	// also is) lets the peer restart the count in the middle of a nested value
+	{
+		var others []string
+		var opos token.Pos
+		for _, fn := range c.P.SrcFuncs("internal/imapwire") {
+			root := fn
+			for root.Parent() != nil {
+				root = root.Parent()
+			}
+			if root == list {
+				continue
+			}
+			allInstrs(fn, func(i ssa.Instruction) {
+				if st, ok := i.(*ssa.Store); ok {
+					if r, ok := fieldOf(st.Addr); ok && r.is("Decoder", "listDepth") && !isFreshLocal(r.Base) {
+						others = append(others, fnKey(fn))
+						opos = st.Pos()
+					}
+				}
+			})
+		}
+		c.check(len(others) == 0, rule, "(*Decoder).listDepth written only by List", opos, "no other function of the decoder stores into the nesting counter",
+			"the nesting counter is also written by "+strings.Join(others, ", ")+": input can reset it below the cap and nest without bound")
+	}
 	// balanced accounting: once the counter is incremented, every return runs the deferred decrement
 	balanced := true
 	{
